@@ -17,6 +17,8 @@
 (*   "R" syntax error the parser recovers from (`1 === 2`): still an error    *)
 (*   "Z" a file of zero bytes (an out-of-line module): its formatted text is  *)
 (*       one line terminator, so it is an unformatted file like any other     *)
+(*   "T" formatted, but followed by two surplus blank lines at the end of the  *)
+(*       file: unformatted like any other, the whole difference is a suffix   *)
 (*   "N" not UTF-8   "M" declares a module whose file is missing            *)
 (*   "A" declares a module with both x.rs and x/mod.rs                      *)
 (*   "W" formatted, but with CRLF line terminators (differs only under an     *)
@@ -101,7 +103,7 @@ SeqsUpTo(S, n) == IF n = 0 THEN {<<>>} ELSE
 
 Healthy == [n |-> IF MaxFiles > 1 THEN 2 ELSE 1, rp |-> 1, fault |-> "none", fpos |-> 0, pat |-> "allU", ign |-> FALSE]
 Clean == [Healthy EXCEPT !.pat = "allF"]
-NonFailing == {s \in Shapes : s.fault \in {"none", "S", "W", "Z"} /\ ~s.ign}
+NonFailing == {s \in Shapes : s.fault \in {"none", "S", "W", "Z", "T"} /\ ~s.ign}
 RootSeqs ==
   IF GenMode = "all" THEN SeqsUpTo(Shapes, MaxRoots) \ {<<>>}
   ELSE {<<s>> : s \in Shapes} \cup {<<s, Healthy>> : s \in Shapes}
@@ -188,8 +190,8 @@ Resolve ==
                           /\ UNCHANGED <<ri, pc, rflags, flags, diag>>
   /\ UNCHANGED <<roots, mode, fl, disk, bk, outp, early, rewrites, exit>>
 
-Differs(k) == k \in {"U", "D", "Z"} \/ (k = "W" /\ fl.nl = "unix")
-LineDiffers(k) == k \in {"U", "D"}    \* what the line-based reports (json, modified) can see
+Differs(k) == k \in {"U", "D", "Z", "T"} \/ (k = "W" /\ fl.nl = "unix")
+LineDiffers(k) == k \in {"U", "D", "T"}    \* what the line-based reports (json, modified) can see
 
 (* filter + format_file + handle_formatted_file + emitter, one file per step *)
 Emit ==
@@ -253,7 +255,7 @@ Failing(r) == roots[r].fault \in RootFaults
               \/ \E j \in 1 .. roots[r].n : Kinds(r)[j] \in ParseFail \cup ResolveFail \cup Sticky
 Writes == EffMode = "files"
 
-Rewritten(k) == k \in {"U", "Z"} \/ (k = "W" /\ fl.nl = "unix")
+Rewritten(k) == k \in {"U", "Z", "T"} \/ (k = "W" /\ fl.nl = "unix")
 
 (* C05 *)
 FailedRootIntact ==
